@@ -651,6 +651,20 @@ def writer_stream(ctx, drv):
             nodes.insert(x.randint(0, len(nodes)), ("ud", x.choice(["if x", "endif", "if gte mso 9", "else", "if !IE"])))
         if x.random() < 0.1:
             nodes.insert(x.randint(0, len(nodes)), ("t", ""))          # an empty text: nothing is written, nothing is built
+        if x.random() < 0.3:
+            # several void elements of ONE name in one document, so that every mixture of the three spellings occurs
+            # (`<br>` … `<br/>` is what 4.13.0 got wrong): inserted at the top level or into ordinary elements
+            vname = x.choice(VOID)
+            hosts = [nodes]
+            def collect(ns):
+                for nd in ns:
+                    if nd[0] == "e" and nd[1] not in VOID and nd[1] not in ("script", "style", "textarea"):
+                        hosts.append(nd[3]); collect(nd[3])
+            collect(nodes)
+            for _ in range(x.randint(2, 4)):
+                h = x.choice(hosts)
+                h.insert(x.randint(0, len(h)), ("e", vname, [], []))
+            ctx.count("writer:same-void-name-repeated")
         opts = x.choice(WRITER_OPTS)
         log = ChoiceLog(ctx.rng("writer-choices", i))
         offsets = []
